@@ -27,8 +27,6 @@ type sys struct {
 	lastFlt string // fault class of the last op
 	lastTgt string // model pin state of the target CID before the last op
 	rawPre  string // canonical raw pin state before the last op (dirty flag excluded)
-	// bothCause[c] = the call after which c first had a direct and a recursive record at once
-	bothCause map[string]string
 	thorough bool
 }
 
@@ -42,7 +40,7 @@ func cfgVal(cfg, k string) string {
 }
 
 func newSys(r *eng.Run, cfg string) *sys {
-	s := &sys{r: r, cfg: cfg, m: newModel(), thorough: r != nil && r.Thorough(), bothCause: map[string]string{}}
+	s := &sys{r: r, cfg: cfg, m: newModel(), thorough: r != nil && r.Thorough()}
 	var missing []string
 	if m := cfgVal(cfg, "miss"); m != "none" && m != "" {
 		missing = strings.Split(m, "+")
@@ -195,13 +193,6 @@ func (s *sys) Do(op string) (string, *eng.Violation) {
 	}
 	f, m := s.f, s.m
 	s.rawPre = s.rawNoDirty()
-	defer func() {
-		for c := range s.f.dumpRaw(s.f.rawPin).bothModes() {
-			if _, ok := s.bothCause[c]; !ok {
-				s.bothCause[c] = fl[0]
-			}
-		}
-	}()
 	var err error
 	allowed := true       // the pin model allows the call
 	fault := "none"       // environment fault that may make it fail
@@ -327,7 +318,7 @@ func (s *sys) replayInfo() map[string]any {
 // diverged, so nothing below this state is meaningful).
 func (s *sys) Check() *eng.Violation {
 	raw := s.f.dumpRaw(s.f.rawPin)
-	vec, viols := observe(s.f, s.p, s.m, raw, s.bothCause)
+	vec, viols := observe(s.f, s.p, s.m, raw)
 	if s.lastErr != nil {
 		post := *raw
 		post.Dirty = ""
@@ -338,7 +329,7 @@ func (s *sys) Check() *eng.Violation {
 			for _, op := range s.path[:len(s.path)-1] {
 				pre.Do(op)
 			}
-			preVec, _ := observe(pre.f, pre.p, pre.m, pre.f.dumpRaw(pre.f.rawPin), pre.bothCause)
+			preVec, _ := observe(pre.f, pre.p, pre.m, pre.f.dumpRaw(pre.f.rawPin))
 			pre.Close()
 			if preVec != vec {
 				return eng.V("failed-op-changed-queries", s.lastOp,
